@@ -17,6 +17,9 @@ type StratRun struct {
 	Actions []int
 	Closed  bool
 	Res     *mc.Result
+	// first healthy child in the trie (C04 sibling comparison)
+	firstChild *StratRun
+	rows       [][5]float64
 }
 
 // Healthy reports clean quiescence.
@@ -211,6 +214,19 @@ func stratTrieUnit(c *core.Ctx, e *cat.Strat, cfg []float64, prop string) {
 			if !p.Healthy() || !run.Healthy() {
 				unhealthy++
 				return run
+			}
+			// siblings differ only in the last snapshot: actions for earlier snapshots must agree
+			run.rows = rows
+			if p.firstChild == nil {
+				p.firstChild = run
+			} else {
+				sib := p.firstChild
+				for i := 0; i < nlen-1 && i < len(run.Actions) && i < len(sib.Actions); i++ {
+					if run.Actions[i] != sib.Actions[i] {
+						c.Fail("", fmt.Sprintf("%s: action %d is %d on %v but %d on %v, which differ only in snapshot %d (look-ahead)", label, i, sib.Actions[i], sib.rows, run.Actions[i], rows, nlen-1), mk())
+						return run
+					}
+				}
 			}
 			// the first min(len, parent snapshots) actions are the ones already published for the prefix
 			m := min(len(p.Actions), nlen-1)
